@@ -353,7 +353,10 @@ class ReadForms(Relation):
             'ang': st.integers(-720, 720).map(float)})
         return st.fixed_dictionaries({
             'rows': st.lists(row, min_size=1, max_size=5),
-            'component': st.booleans()})
+            'component': st.booleans(),
+            # width of the X / Y vector columns: 2, or wider as in a table
+            # that also holds a polygon (the unused elements are 0)
+            'xywidth': st.sampled_from([2, 2, 3, 5, 8])})
 
     def check(self, sp, ctx):
         import astropy.units as u
@@ -400,14 +403,16 @@ class ReadForms(Relation):
             SH.append(name.upper() if r['case'] == 'upper' else name)
         t = QTable()
         t['SHAPE'] = SH
-        t['X'] = np.array(X) * u.pix
-        t['Y'] = np.array(Y) * u.pix
+        W = sp.get('xywidth', 2)
+        pad = [0.0] * (W - 2)
+        t['X'] = np.array([v + pad for v in X]) * u.pix
+        t['Y'] = np.array([v + pad for v in Y]) * u.pix
         t['R'] = np.array(R) * u.pix
         t['ROTANG'] = np.array(A) * u.deg
         if sp['component']:
             t['COMPONENT'] = np.arange(len(rows)) + 3
         regs = list(Regions.parse(t, format='fits'))
-        ctx.label(*{r['shape'] for r in rows})
+        ctx.label(*{r['shape'] for r in rows}, 'xywidth:%d' % W)
         ctx.check(len(regs) == len(rows), 'read | wrong number of regions')
         for r, w, reg, i in zip(rows, want, regs, range(len(rows))):
             tag = f"{r['shape']}{' excluded' if r['excl'] else ''}"
